@@ -367,6 +367,11 @@ func c03(c *core.Ctx) {
 	// entries to the caller's, it does not replace them (C13/R2)
 	c.Borrow("C13", map[string]string{"R2": "R10"}, c13)
 
+	// ---------------------------------------------------------------- R11 (shared)
+	// what a handler set for ONE call reaches that call's caller: no object that outlives a call (a pooled or
+	// package-level transport stream, a field of the channel) holds header or trailer state (C01/R1)
+	c.Borrow("C01", map[string]string{"R1": "R11"}, c01)
+
 }
 
 func c03Typestate(c *core.Ctx, nt *types.Named) {
